@@ -499,3 +499,145 @@ func TestC11_FirstUse(t *testing.T) {
 		rec.Case(true, map[string]any{"first_use": true, "goroutines": g, "each": each, "rounds": rounds, "gomaxprocs": procs, "query": q}, "first-use")
 	})
 }
+
+// TestC11_OptionTwins releases goroutines together onto a fresh cached database, all asking
+// the SAME query (in varying letter case) but under two option sets that differ in one field:
+// whatever is shared between concurrent requests for one query (cache entries, in-flight
+// work, scratch state) must be keyed by everything that can change the answer.
+func TestC11_OptionTwins(t *testing.T) {
+	rec := stat.For("C11")
+	rec.Rule("option twins: G in [2,12] goroutines released by a barrier onto a fresh Cached/MonitoredDatabase (cold cache), all searching one query (ASCII re-spellings) under two option sets taken from a pool of one-field deltas (limit, boosts, pipeline, fuzzy, threshold, NLP, term cap, all-platforms, platforms, no-cross); pairs whose sequential answers differ are preferred; 10 fresh instances per case; built with -race. Oracle: every answer equals the sequential answer for its own option set. Non-trivial = the two option sets have different sequential answers.")
+	rapid.Check(t, func(t *rapid.T) {
+		cmds := rapid.SliceOfN(c04Cmd(), 4, 14).Draw(t, "cmds")
+		twin := gen.Load(t, cmds)
+		toks := gen.Tokens(cmds)
+		if len(toks) < 2 {
+			toks = append(toks, "find", "files")
+		}
+		tok := rapid.SampledFrom(toks)
+		q := asciiOnly(gen.TextOf(tok, 1, 2).Draw(t, "q"))
+		if rapid.IntRange(0, 3).Draw(t, "typo-query") == 0 {
+			q = asciiOnly(gen.Typo(t, tok.Draw(t, "typo-word")))
+		}
+		pool := c05Options(t, toks)
+		spell := []string{q, strings.ToUpper(q), strings.ToLower(q)}
+		want := make([][3][]rankItem, len(pool))
+		for i, o := range pool {
+			for s, sq := range spell {
+				want[i][s] = rank(twin, twin.SearchUniversal(sq, o))
+			}
+		}
+		// candidate pairs are exactly one field apart (every pool entry is a one-field delta of
+		// pool[0]; two more pairs inside the pool are one field apart as well)
+		var oneApart, differing [][2]int
+		for b := 1; b < len(pool); b++ {
+			oneApart = append(oneApart, [2]int{0, b})
+		}
+		for a := 1; a < len(pool); a++ {
+			for b := a + 1; b < len(pool); b++ {
+				if optFieldDistance(pool[a], pool[b]) == 1 {
+					oneApart = append(oneApart, [2]int{a, b})
+				}
+			}
+		}
+		for _, p := range oneApart {
+			if !rankEq(want[p[0]][0], want[p[1]][0]) {
+				differing = append(differing, p)
+			}
+		}
+		pair := oneApart[rapid.IntRange(0, len(oneApart)-1).Draw(t, "pair")]
+		if len(differing) > 0 && rapid.IntRange(0, 5).Draw(t, "prefer-differing") > 0 {
+			pair = differing[rapid.IntRange(0, len(differing)-1).Draw(t, "differing-pair")]
+		}
+		nontrivial := !rankEq(want[pair[0]][0], want[pair[1]][0])
+		path := gen.WriteDB(t, cmds)
+		defer os.Remove(path)
+		g := rapid.IntRange(2, 12).Draw(t, "goroutines")
+		procs := rapid.SampledFrom([]int{2, 4, 16}).Draw(t, "gomaxprocs")
+		monitoredPath := rapid.Bool().Draw(t, "monitored")
+		prev := runtime.GOMAXPROCS(procs)
+		defer runtime.GOMAXPROCS(prev)
+		for round := 0; round < 10; round++ {
+			db, err := database.LoadDatabase(path)
+			if err != nil {
+				t.Fatalf("harness: %v", err)
+			}
+			mdb := database.NewMonitoredDatabase(db)
+			var wg sync.WaitGroup
+			var mu sync.Mutex
+			var bad []string
+			start := make(chan struct{})
+			for i := 0; i < g; i++ {
+				wg.Add(1)
+				go func(i int) {
+					defer wg.Done()
+					oi, si := pair[(i+round)%2], (i/2)%3
+					<-start
+					for rep := 0; rep < 2; rep++ {
+						var res []database.SearchResult
+						if monitoredPath && i%3 == 0 {
+							res = mdb.SearchWithOptionsAndMonitoring(spell[si], pool[oi])
+						} else {
+							res = mdb.SearchWithOptionsAndCache(spell[si], pool[oi])
+						}
+						if got := rank(db, res); !rankEq(got, want[oi][si]) {
+							mu.Lock()
+							bad = append(bad, fmt.Sprintf("goroutine %d (%q, options %v): got %s, alone it answers %s", i, spell[si], optBrief(pool[oi]), rankStr(got), rankStr(want[oi][si])))
+							mu.Unlock()
+						}
+					}
+				}(i)
+			}
+			close(start)
+			if !waitOrHang(&wg, 60*time.Second) {
+				t.Fatalf("concurrent cached searches did not finish within 60 s (deadlock)\n goroutines:\n%s", dumpStacks())
+			}
+			if len(bad) > 0 {
+				saveCase("C11", "twins", map[string]any{"test": "TestC11_OptionTwins", "note": "schedule-dependent; re-run the check", "query": q, "options": []string{fmt.Sprint(optBrief(pool[pair[0]])), fmt.Sprint(optBrief(pool[pair[1]]))}, "failures": bad, "db": gen.BriefDB(cmds, 14)})
+				t.Fatalf("round %d: %d goroutines searching %q under two option sets at once (GOMAXPROCS=%d):\n%s\n db=%v", round, g, q, procs, strings.Join(bad, "\n"), gen.BriefDB(cmds, 14))
+			}
+		}
+		labels := []string{"option-twins"}
+		if nontrivial {
+			labels = append(labels, "twins-differ")
+		}
+		rec.Case(nontrivial, map[string]any{"option_twins": true, "goroutines": g, "gomaxprocs": procs, "query": q, "a": fmt.Sprint(optBrief(pool[pair[0]])), "b": fmt.Sprint(optBrief(pool[pair[1]]))}, append(labels, "twin-field:"+optDeltaName(pool[pair[0]], pool[pair[1]]))...)
+	})
+}
+
+// optFieldDistance counts the option fields in which a and b differ.
+func optFieldDistance(a, b database.SearchOptions) int {
+	n := 0
+	for _, d := range []bool{a.Limit != b.Limit, fmt.Sprint(a.ContextBoosts) != fmt.Sprint(b.ContextBoosts), a.PipelineOnly != b.PipelineOnly, a.PipelineBoost != b.PipelineBoost,
+		a.UseFuzzy != b.UseFuzzy, a.FuzzyThreshold != b.FuzzyThreshold, a.UseNLP != b.UseNLP, a.TopTermsCap != b.TopTermsCap, a.AllPlatforms != b.AllPlatforms,
+		fmt.Sprint(a.Platforms) != fmt.Sprint(b.Platforms), a.NoCrossPlatform != b.NoCrossPlatform} {
+		if d {
+			n++
+		}
+	}
+	return n
+}
+
+func optDeltaName(a, b database.SearchOptions) string {
+	switch {
+	case a.NoCrossPlatform != b.NoCrossPlatform:
+		return "no-cross"
+	case fmt.Sprint(a.Platforms) != fmt.Sprint(b.Platforms):
+		return "platforms"
+	case a.AllPlatforms != b.AllPlatforms:
+		return "all-platforms"
+	case a.Limit != b.Limit:
+		return "limit"
+	case fmt.Sprint(a.ContextBoosts) != fmt.Sprint(b.ContextBoosts):
+		return "boosts"
+	case a.PipelineOnly != b.PipelineOnly || a.PipelineBoost != b.PipelineBoost:
+		return "pipeline"
+	case a.UseFuzzy != b.UseFuzzy || a.FuzzyThreshold != b.FuzzyThreshold:
+		return "fuzzy"
+	case a.UseNLP != b.UseNLP:
+		return "nlp"
+	case a.TopTermsCap != b.TopTermsCap:
+		return "term-cap"
+	}
+	return "same"
+}
